@@ -27,6 +27,7 @@ def nth (l : List Json) (i : Nat) : R Json :=
 /-- floats travel as decimal strings of their IEEE bit pattern -/
 def flt (j : Json) : R Float := do
   let s ← j.getStr?
+  if s == "nan" then return (0.0 / 0.0 : Float)
   match s.toNat? with
   | some n => pure (Float.ofBits n.toUInt64)
   | none => throw s!"bad float bits {s}"
